@@ -229,7 +229,7 @@ PAT = {"S": (URIRef(EX + "a"), None, None), "O": (None, None, Literal("")), "P":
 GRAPH_OPS = ([["add", t] for t in T] + [["remove", t] for t in ("t1", "t2")] + [["removew", p] for p in ("S", "O", "ALL")] + [["addN"]] +
              [["commit"], ["rollback"], ["update"]] +
              [["read", p] for p in PAT] + [["read-exact", "t2"], ["len"], ["contains", "t1"], ["query"]])
-DATASET_OPS = ([["addq", "t1", "g1"], ["addq", "t1", "g2"], ["addq", "t2", "g2"], ["removeq", "t1", "g1"], ["removeq", "t1", None], ["removeqw", "ALL", "g2"],
+DATASET_OPS = ([["addNq"], ["addq", "t1", "g1"], ["addq", "t1", "g2"], ["addq", "t2", "g2"], ["removeq", "t1", "g1"], ["removeq", "t1", None], ["removeqw", "ALL", "g2"],
                 ["remove_graph", "g1"], ["commit"], ["rollback"], ["contexts"], ["quads"], ["readq", "g2"]])
 
 
@@ -344,6 +344,13 @@ def run_history(client, cfg, ops, horizon=30.0):
                     if got != exp:
                         return (("%s|%s|read-differs-from-local-graph" % (ccls, k if k != "read" else "triples:" + "".join("b" if x is not None else "x" for x in PAT[op[1]])),
                                  {"ops": ops[:steps], "got": got, "expected": exp}), steps)
+                elif k == "addNq":
+                    # one batch whose quads of one graph are not adjacent
+                    # (graph names, not Graph views: Dataset.addN merges a Graph argument into the graph of that name first, which reads it)
+                    g.addN([T["t1"] + (G1,), T["t2"] + (G2,), T["t3"] + (G1,), T["t1"] + (G2,)])
+                    model.queue += [("add", "t1", "g1"), ("add", "t2", "g2"), ("add", "t3", "g1"), ("add", "t1", "g2")]
+                    if autocommit:
+                        model.commit()
                 elif k == "addq":
                     gg = G1 if op[2] == "g1" else G2
                     g.add(T[op[1]] + (gg,))
